@@ -44,6 +44,7 @@ fn build_connection(local_ip: IpAddr, label: String) -> SrtlaConnection {
         stall_gate_events: 0,
         stall_probe_counter: 0,
         silence_pulled: false,
+        silence_pull_heard_mark: None,
         silence_pulls: 0,
         conn_timeout_ms: crate::config_snapshot::CONN_TIMEOUT_MS,
         rtt: RttTracker::default(),
